@@ -331,6 +331,7 @@ structure StartPost (s s4 : State) (m : Nat) : Prop where
   log : LogOK s → ((s.get m).runs ≠ 0 → ∃ e ∈ (s.get m).seen, (s.get e.1).ver ≠ e.2.2) → LogOK s4
   logx : LogExt (fun ev => ev = .unjust m ∨ ev = .ran m) s s4
   runsx : RunsX s s4
+  logs : ∃ pre, s4.log = s.log ++ (pre ++ [Ev.ran m]) ∧ ∀ ev ∈ pre, ev = Ev.unjust m
 
 theorem startRun_post {s : State} {m : Nat} (hnd : ∀ i, (s.get i).subs.Nodup)
     (hedge : ∀ i, i ∉ (s.get m).sources → m ∉ (s.get i).subs) (hself : m ∉ (s.get m).sources)
@@ -394,7 +395,7 @@ theorem startRun_post {s : State} {m : Nat} (hnd : ∀ i, (s.get i).subs.Nodup)
       rw [if_pos ⟨rfl, hm3⟩, if_pos rfl, g3m]
     · rw [if_neg (fun hc => hmi hc.1), if_neg hmi, g3o i (Ne.symm hmi)]; rfl
   unfold noteRun at hrx ⊢
-  refine ⟨?_, rfl, ?_, ?_, ?_, ?_, hrx⟩
+  refine ⟨?_, rfl, ?_, ?_, ?_, ?_, hrx, ?_⟩
   · simp only [State.emit_nodes, State.upd_length]
     split <;> simpa using len3
   · simp only [State.setObs_get, State.emit_get]
@@ -434,6 +435,10 @@ theorem startRun_post {s : State} {m : Nat} (hnd : ∀ i, (s.get i).subs.Nodup)
         rcases hev with h' | h'
         · exact .inl h'
         · exact .inr h'⟩
+  · simp only
+    split
+    · exact ⟨[], by simp [log3], fun ev hev => by cases hev⟩
+    · exact ⟨[.unjust m], by simp [log3], fun ev hev => List.mem_singleton.1 hev⟩
 
 section
 variable {s s4 : State} {m : Nat}
